@@ -12,11 +12,13 @@ PROPERTY = "C14"
 FUNCTIONS = ["sigpy.app.LinearLeastSquares.__init__/_get_alg/_get_ConjugateGradient/_get_GradientMethod/_get_PrimalDualHybridGradient/_get_ADMM",
              "sigpy.app.MaxEig", "sigpy.alg.{ConjugateGradient,GradientMethod,PrimalDualHybridGradient,ADMM}.update",
              "sigpy.prox.{L1Reg,L2Reg,BoxConstraint,Conj,Stack,NoOp}", "sigpy.linop.{MatMul,Vstack,Identity,Add,Compose,Multiply}"]
-BOUNDS = {"quick": "A in {2x2 dense, 3x2, 1x1 'identity-like'} as MatMul (and Identity), G in {None, 2x2 dense, finite difference}, proxg in {None, l1, l2, box}, "
+BOUNDS = {"quick": "A ARBITRARY (every entry a solver variable) 2x2 / 3x2 with arbitrary lamda > 0 for CG, GradientMethod (all prox, with/without acceleration), PDHG and 1x1 ADMM; "
+                   "G = Identity / Reshape (forward call returns its argument / a view) for ADMM and PDHG; further A in {2x2 dense, 3x2, 1x1 'identity-like'} as MatMul (and Identity), G in {None, 2x2 dense, finite difference}, proxg in {None, l1, l2, box}, "
                    "lamda in {0, 1/2, 2}, z in {None, symbolic}, solver in {CG, GradientMethod, PDHG, ADMM, None}, x given / None, step arguments given / defaulted",
           "thorough": "full cross product"}
 OUTSIDE = ["that the iteration reaches its fixed point within max_iter (C12/C13 lemmas + ADMM theory)", "inner-CG truncation in ADMM for n > max_cg_iter",
-           "complex data (real matrices and vectors here)"]
+           "complex data (real matrices and vectors here)",
+           "arbitrary (symbolic) A beyond 2x2 / 3x2 (CG, GradientMethod, PDHG) and 1x1 / 2x1 (ADMM); PDHG with symbolic 3x2 A, l1 and lamda = 0 (z3 unknown after 8 min)"]
 ASSUMPTIONS = ["PDHG harness: sigpy.app.MaxEig is replaced by a stub returning an arbitrary positive number (symbolic step sizes)",
                "A, G concrete small matrices; y, z, the solver state (x, dual variables) and prox parameters symbolic", "regularisation parameters > 0",
                "MaxEig (power method with a random start) runs numerically on the concrete operator; only positivity of the resulting step is used"]
@@ -24,8 +26,8 @@ EXPLANATION = ("C14: for the Alg object constructed by the real LinearLeastSquar
                "exactly the KKT points of the DOCUMENTED objective 0.5||Ax-y||^2 + g(Gx) + lamda/2||x-z||^2 (both directions, multiplier read off the "
                "solver's dual state); CG: b_sys - A_sys x = -grad objective(x) identically; unsupported combinations raise; inputs y, z are not modified.")
 
-AM = {"dense2": [[2, 1], [0, 1]], "tall32": [[1, 0], [1, 1], [0, 2]], "one": [[1]], "id2": "identity", "two11": [[2]], "tall21": [[1], [2]]}
-GM_ = {"dense2": [[1, -1], [1, 2]], "fd": "fd", "wide": [[1, 2]], "tall": [[1, 0], [0, 1], [1, 1]], "g11": [[3]], "g21": [[1], [-2]]}
+AM = {"small2": [[0.25, 0], [0.125, 0.25]], "small11": [[0.125]], "dense2": [[2, 1], [0, 1]], "tall32": [[1, 0], [1, 1], [0, 2]], "one": [[1]], "id2": "identity", "two11": [[2]], "tall21": [[1], [2]]}
+GM_ = {"ident": "ident", "reshape": "reshape", "dense2": [[1, -1], [1, 2]], "fd": "fd", "wide": [[1, 2]], "tall": [[1, 0], [0, 1], [1, 1]], "g11": [[3]], "g21": [[1], [-2]]}
 
 
 def _pos(V, name):
@@ -39,8 +41,16 @@ class Problem:
         import sigpy as sp
         from sigpy import prox
         self.V = V
-        a = AM[cfg["A"]]
-        if a == "identity":
+        a = AM.get(cfg["A"])
+        if cfg["A"].startswith("sym"):
+            # ARBITRARY real matrix: every entry is a solver variable ("sym22" = 2x2, "sym32" = 3x2, "sym11" = 1x1, "sym21" = 2x1)
+            m_, n = int(cfg["A"][3]), int(cfg["A"][4])
+            self.Amat = np.empty((m_, n), dtype=object if V.symbolic else np.float64)
+            for i in range(m_):
+                for j in range(n):
+                    self.Amat[i, j] = V.scalar("a%d%d" % (i, j))
+            self.A = sp.linop.MatMul([n, 1], self.Amat)
+        elif a == "identity":
             n = 2
             self.Amat = np.eye(2)
             self.A = sp.linop.Identity([n, 1])
@@ -51,11 +61,16 @@ class Problem:
         self.n = n
         self.m = self.Amat.shape[0]
         self.y = V.array("y", [self.m, 1], False)
-        self.lam = {"0": 0, "half": 0.5, "two": 2}[cfg["lam"]]
+        self.lam = _pos(V, "lamda") if cfg["lam"] == "sym" else {"0": 0, "half": 0.5, "two": 2}[cfg["lam"]]
         self.z = V.array("z", [n, 1], False) if cfg["z"] else None
         g = cfg["G"]
         if g is None:
             self.G, self.Gmat, self.gshape = None, np.eye(n), [n, 1]
+        elif GM_[g] in ("ident", "reshape"):
+            # operators whose forward call hands back its argument itself / a view of it
+            self.G = sp.linop.Identity([n, 1]) if g == "ident" else sp.linop.Reshape([n, 1], [n, 1])
+            self.Gmat = np.eye(n)
+            self.gshape = [n, 1]
         elif GM_[g] == "fd":
             self.G = sp.linop.FiniteDifference([n, 1], axes=[0])
             self.Gmat = np.eye(n) - np.roll(np.eye(n), 1, axis=0)
@@ -162,7 +177,11 @@ def h_gm(cfg, V):
     else:
         L = float(np.linalg.eigvalsh(P.Amat.T @ P.Amat + P.lam * np.eye(P.n)).max())
         a = float(al.alpha)
-        obl.append(("default_alpha_is_1_over_L_within_power_method_tolerance", O.const(0 < a and a * L <= 1.05)))
+        # the power iteration approaches L from below; for the small-norm operators lamda*I clusters the spectrum (ratio 0.89), so 30
+        # iterations from a random start may still be 12 % low: the estimate is never below the smallest eigenvalue, which bounds
+        # a*L by 1.12 there - 1.5 is still inside the convergence threshold 2/L of the proximal gradient method
+        bound = 1.5 if cfg["A"].startswith("small") else 1.05
+        obl.append(("default_alpha_is_1_over_L_within_power_method_tolerance", O.const(0 < a and a * L <= bound)))
     # fixed points of one update <=> KKT (G = identity, multiplier w = -grad smooth)
     import sigpy as sp
     x = V.array("x", [P.n, 1], False)
@@ -235,8 +254,23 @@ def h_pdhg(cfg, V):
                 w = V.array("pw", [Kmat.shape[0], 1], False)
                 obl.append(("sigma_default_from_K_T_KH", O.eq(np.ravel(op(np.reshape(w, op.ishape))), np.ravel(Kmat @ (kw["tau"] * (Kmat.T @ w))))))
                 obl.append(("sigma_is_reciprocal_of_its_largest_eigenvalue", O.eq(al.sigma * vals[-1], 1)))
-    x = V.array("x", [P.n, 1], False)
     ushape = list(np.shape(al.u))
+    if cfg.get("accel"):
+        # the acceleration parameters handed to PrimalDualHybridGradient must be strong-convexity moduli of the functions the prox objects
+        # stand for (otherwise the step-size schedule theta/tau/sigma leaves the convergent regime and the run stalls away from the minimiser):
+        # the prox of a gamma-strongly convex function with step s is 1/(1 + s gamma)-Lipschitz - asserted for ALL pairs of points
+        for nm, pr, gam, shape in (("dual", al.proxfc, al.gamma_dual, ushape), ("primal", al.proxg, al.gamma_primal, [P.n, 1])):
+            if isinstance(gam, (int, float)) and gam == 0:
+                obl.append(("%s_acceleration_off" % nm, O.const(True)))
+                continue
+            a, b_ = V.array(nm + "_a", shape, False), V.array(nm + "_b", shape, False)
+            st = _pos(V, nm + "_step")
+            d = np.ravel(pr(st, a) - pr(st, b_))
+            e = np.ravel(a - b_)
+            obl.append(("%s_acceleration_parameter_is_a_strong_convexity_modulus" % nm,
+                        O.le(O.vdot(d, d) * (1 + st * gam) * (1 + st * gam), O.vdot(e, e))))
+        return obl
+    x = V.array("x", [P.n, 1], False)
     u = V.array("u", ushape, False)
     sp.backend.copyto(al.x, x)
     sp.backend.copyto(al.x_ext, x)
@@ -358,6 +392,35 @@ def configs(tier, seed):
         add("admm", A=A, lam=lam, z=z, x=rho, solver="ADMM", G=G, g=g, rho=rho, cost=80)
     for lam, z in (("0", False), ("half", True)):
         add("admm", A="id2", lam=lam, z=z, x=False, solver="ADMM", G=None, g="l1", rho=False, cost=80)
+    # ARBITRARY A (every entry a solver variable) and arbitrary lamda > 0
+    for A in ("sym22", "sym32"):
+        add("cg", A=A, lam="sym", z=True, x=True, solver="ConjugateGradient", G=None, g=None, cost=30)
+        for g in (None, "l1", "box"):
+            for acc in (False, True):
+                add("gm", A=A, lam="sym", z=True, x=True, solver="GradientMethod", G=None, g=g, acc=acc, alpha=True, cost=60)
+    for A, G, g in (("sym22", None, None), ("sym22", None, "l1"), ("sym22", "fd", "l1"), ("sym22", "dense2", "l1"), ("sym22", "wide", "box"), ("sym32", None, "l1")):
+        # measured on the unchanged tree: the quick tier keeps the configurations that take about a minute or less;
+        # sym32 / l1 / lamda = 0 leaves 4 obligations `unknown` after 8 min and is outside (OUTSIDE)
+        if full or (G, g) in ((None, None), ("wide", "box"), (None, "l1")) and A == "sym22":
+            add("pdhg", A=A, lam="sym", z=True, x=True, solver="PrimalDualHybridGradient", G=G, g=g, steps="both", cost=100)
+        if (full and A == "sym22") or (G, g) in ((None, None), ("wide", "box"), ("fd", "l1")):
+            add("pdhg", A=A, lam="0", z=False, x=True, solver="PrimalDualHybridGradient", G=G, g=g, steps="both", cost=100)
+    for A, G, g in (("sym11", None, None), ("sym11", None, "l1"), ("sym11", "g11", "l1"), ("sym21", None, "l1")):
+        if full or (A == "sym11" and G is None):
+            add("admm", A=A, lam="sym", z=True, x=True, solver="ADMM", G=G, g=g, rho=True, cost=100)
+    # G whose forward call returns its argument itself (Identity) or a view of it (Reshape): the solver's split variable must not alias x
+    for A, G in (("two11", "ident"), ("tall21", "reshape")) + ((("id2", "ident"),) if full else ()):
+        add("admm", A=A, lam="half", z=True, x=True, solver="ADMM", G=G, g="l1", rho=True, cost=80)
+    add("pdhg", A="dense2", lam="half", z=True, x=True, solver="PrimalDualHybridGradient", G="ident", g="l1", steps="both", cost=50)
+    add("pdhg", A="dense2", lam="0", z=False, x=False, solver=None, G="reshape", g="box", steps="none", cost=50)
+    # acceleration parameters = strong-convexity moduli (contraction of the real prox objects for all pairs of points)
+    for A, lam, z, g, G in (("dense2", "0", False, "l1", "fd"), ("dense2", "0", False, "box", "dense2"), ("one", "half", True, "l1", None),
+                            ("dense2", "half", True, "l1", "fd"), ("id2", "0", False, "l1", None), ("dense2", "0", False, None, None),
+                            ("tall32", "two", False, "l2", "wide"), ("dense2", "sym", True, "box", None), ("dense2", "sym", True, "l1", "dense2")):
+        add("pdhg", A=A, lam=lam, z=z, x=True, solver="PrimalDualHybridGradient", G=G, g=g, steps="both", accel=True, cost=50)
+    # default GradientMethod step for operators of small norm (alpha must stay <= 1 / (||A||^2 + lamda))
+    for A, lam, g in (("small2", "two", None), ("small2", "half", "l1"), ("small11", "two", "l1"), ("small11", "half", None)):
+        add("gm", A=A, lam=lam, z=True, x=False, solver="GradientMethod", G=None, g=g, acc=False, alpha=False)
     # unsupported combinations
     add("reject", A="dense2", lam="0", z=False, solver="ConjugateGradient", G=None, g="l1")
     add("reject", A="dense2", lam="half", z=True, solver="ConjugateGradient", G="dense2", g="box")
